@@ -29,6 +29,17 @@ def gen_case(rng, tier):
             col = [f"id{(i * 7 + len(f)) % max(20, n // 2)}" for i in range(n)]
             X[f] = encs(col)
             continue
+        if t == "quant" and rng.random() < 0.35:
+            # date-like numbers: different features share their 4-significant-digit renderings
+            types[f] = "quant"
+            base_ = rng.choice([20230000, 20230000, 202300, 1700000000])
+            span = rng.choice([12, 31, 365])
+            col = [float(base_ + 1 + (rng.randrange(span) * (1 + len(f) % 3)) % span) for i in range(n)]
+            if rng.random() < 0.4:
+                for i in rng.sample(range(n), n // 10):
+                    col[i] = NAN
+            X[f] = encs(col)
+            continue
         types[f] = t
         if t == "quant":
             k = rng.choice([3, 5, 8, 40])
@@ -52,6 +63,17 @@ def gen_case(rng, tier):
             for i in rng.sample(range(n), n // 10):
                 col[i] = NAN
         X[f] = encs(col)
+    if rng.random() < 0.3 and len(names) >= 2:
+        # a pair of date-like quantitative features with the SAME number of boundaries, all equal at 4
+        # significant digits, but different values (their labels must not be mixed up)
+        k = rng.randint(3, 6)
+        base_ = rng.choice([20230100, 202301, 1700000000])
+        for j, f in enumerate(names[:2]):
+            vals = [float(base_ + 2 * i + j) for i in range(k)]
+            col = [vals[(i + (y[i] if rng.random() < 0.5 else 0)) % k] for i in range(n)]
+            types[f] = "quant"
+            orders.pop(f, None)
+            X[f] = encs(col)
     return {"klass": klass, "types": types, "X": X, "orders": orders, "y": y, "names": names,
             "min_freq": rng.choice([0.1, 0.15, 0.2, 0.06, 0.13, 0.17]), "max_n_mod": rng.randint(2, 5),
             "dropna": rng.random() < 0.6, "output_dtype": rng.choice(["float", "str"]),
